@@ -22,8 +22,7 @@ def generate(rng: random.Random, tier: str):
             cases.append(zoo.gen_config(kind, rng))
     nk = 12 if tier == 'thorough' else 3
     for kind in zoo_kernels.KERNEL_KINDS:
-        for _ in range(nk * (3 if kind == 'wavelet' else 1)):
-            cases.append(zoo_kernels.gen_config(kind, rng))
+        cases += zoo_kernels.gen_configs(kind, rng, nk * (3 if kind == 'wavelet' else 1))
     if tier == 'thorough':
         for fam in zoo_kernels.WAVELETS_ORTHO + zoo_kernels.WAVELETS_BIORTHO:
             for level in (1, 2):
